@@ -175,7 +175,11 @@ func mountIndexer(defaultPath string) indexer {
 		case map[string]any:
 			t, ok := v["target"]
 			if ok {
-				return t.(string), nil
+				target, ok := t.(string)
+				if !ok {
+					return "", fmt.Errorf("%s.target must be a string", path)
+				}
+				return target, nil
 			}
 			return fmt.Sprintf("%s/%s", defaultPath, v["source"]), nil
 		default:
